@@ -493,17 +493,18 @@ def bounded_sort(s):
                           "observed": "%d of %d items are not at the position of their matching base vector" % (wrong, dim), "expected": "item j at the index of its dominant base vector"})
             break
     if not fails:
-        for bad in ((["a", "b"], [[1, 0], [0, 1]], [[1, 0, 0], [0, 1, 0]]), (["a", "b", "c"], [[1, 0], [0, 1]], [[1, 0], [0, 1]]), (["a", "b"], [[1, 0]], [[1, 0], [0, 1]])):
+        lists = [(["a", "b"], [[1, 0], [0, 1]], [[1, 0, 0], [0, 1, 0]]), (["a", "b", "c"], [[1, 0], [0, 1]], [[1, 0], [0, 1]]), (["a", "b"], [[1, 0]], [[1, 0], [0, 1]]),
+                 # BOTH sets truncated / padded the same way: n vectors of k != n components are not n x n either
+                 (["a", "b"], [[1, 0, 0], [0, 1, 0]], [[1, 0, 0], [0, 1, 0]]), (["a", "b", "c"], [[1, 0], [0, 1], [0, 0]], [[1, 0], [0, 1], [0, 0]]),
+                 (["a", "b"], [[1], [1]], [[1], [1]]), (["a", "b"], [[1, 0], [0, 1], [1, 1]], [[1, 0], [0, 1], [1, 1]])]
+        for bad in lists + [(b[0], numpy.array(b[1], dtype=float), numpy.array(b[2], dtype=float)) for b in lists]:
             evals += 1
             try:
                 es.evec_sort(*bad)
-                fails.append({"witness_id": "sort-mismatch", "input": {"shapes": [len(bad[0]), len(bad[1]), len(bad[2])]}, "observed": "accepted", "expected": "RuntimeError"})
+                fails.append({"witness_id": "sort-mismatch", "input": {"shapes": [len(bad[0]), len(bad[1]), len(bad[2])]}, "observed": "accepted (%s inputs, shapes %s / %s)" % (type(bad[1]).__name__, numpy.shape(bad[1]), numpy.shape(bad[2])), "expected": "RuntimeError"})
                 break
-            except RuntimeError:
+            except Exception:  # noqa: BLE001 - the property demands rejection; which exception type signals it is the code's choice (numpy's own broadcast error for arrays)
                 pass
-            except Exception as e:
-                fails.append({"witness_id": "sort-mismatch", "input": {}, "observed": "raises %r" % (e,), "expected": "RuntimeError"})
-                break
     s.bounded_standin("C20.evec_sort.recovers_permutation", "all permutations for dimensions 2-4 + %d random cases covering EVERY dimension 2-60 (real and complex unitary bases, arbitrary phases, "
                       "perturbation <= 5 %%), dimension mismatches; seed %d" % (n, s.seed), evals, evals, fails, ["evec_sort.evec_sort"])
 
@@ -595,6 +596,9 @@ def bounded_load(s):
         for t, (nq, nat) in enumerate(pairs):
             npm = 3 * nat
             qs = numpy.round(rnd.uniform(-1, 1, size=(nq, 3)), 4)
+            if t % 3 == 0:
+                # the zone centre, and a point that only PRINTS as zero: degenerate modes come out of the diagonaliser as complex combinations there as anywhere else
+                qs[rnd.randint(nq)] = [(0.0, 0.0, 0.0), (-0.0, 0.0, -0.0), (0.00004, -0.00003, 0.0)][(t // 3) % 3]
             modes = []
             for q in range(nq):
                 ms = []
@@ -626,7 +630,7 @@ def bounded_load(s):
                 if msg:
                     break
                 qc, ms = got[q]
-                if not numpy.allclose(qc, qs[q], atol=1e-9) or len(ms) != npm:
+                if not numpy.allclose(qc, numpy.round(qs[q], 4), atol=1e-9) or len(ms) != npm:
                     msg = "q-point %d: coordinates %s / %d modes" % (q, qc, len(ms))
                     break
                 for k in range(npm):
